@@ -92,6 +92,7 @@ class GenIndex:
         self.mod_of = [None] * (len(self.lines) + 2)
         self.fn_props = {}
         self.fn_sem = {}
+        self.fn_ext = set()
         self.labels = {}  # name -> dict(props, line, fn)
         self.label_lines = {}  # line -> [names]
         stack, mod = [], None
@@ -111,6 +112,8 @@ class GenIndex:
                             sem = [p for p in t[4:].split(',') if p]
                     self.fn_props[name] = props
                     self.fn_sem[name] = sem if sem is not None else props
+                    if 'ext=1' in toks[1:]:
+                        self.fn_ext.add(name)
                     stack.append(name)
                 elif kind == 'ENDFN':
                     if stack:
